@@ -69,16 +69,20 @@ Definition alg_key (kamf:bytes) (dist alg:N) : bytes :=
   firstn 16 (skipn 16 (GetKDFValue H kamf FC_FOR_ALGORITHM_KEY_DERIVATION [P0; KDFLen P0; P1; KDFLen P1])).
 
 (* DeriveRESstarAndSetKey(authSubs, autn, rand, snName, mnc, mcc) on a context with Supi, CipheringAlg,
-   IntegrityAlg.  sqn/amf handed to the library (little-endian reads of autn[0:6] / "8000") only feed
-   mil.F1() and mil.F1Star(), whose results and errors are discarded, so they do not appear here;
-   their only lasting effect, caching OPc, is what opc_of_wm computes again. *)
+   IntegrityAlg (autn is a [16]uint8).  The sqn/amf handed to the library are little-endian reads of
+   00 00 || autn[0:6] and of the decoded "8000" (so the library holds the octets in reverse order);
+   they only feed mil.F1() and mil.F1Star(sqn, amf), whose results and errors are discarded, so those two
+   calls do not appear here; their only lasting effect, caching OPc, is what opc_of_wm computes again. *)
+Definition le_to_N (l:bytes) : N := be_to_N (rev l).
 Definition DeriveRESstarAndSetKey (supi:bytes) (ea ia:N) (a:auth_subs) (autn rand snName mnc mcc:bytes) : ue_result :=
-  match hex_decode (as_amf a) with None => UeFatal | Some _ =>
+  match hex_decode (as_amf a) with None => UeFatal | Some amf =>
+  let sqn := le_to_N ([0;0] ++ firstn 6 autn) in
+  let amf16 := le_to_N (firstn 2 amf) in
   match hex_decode (as_k a) with None => UeFatal | Some k =>
   let mil :=
     match as_opc a with
-    | [] => match hex_decode (as_op a) with None => None | Some op => Some (New k op rand 0 0) end
-    | _ => match hex_decode (as_opc a) with None => None | Some opc => Some (NewWithOPc k opc rand 0 0) end
+    | [] => match hex_decode (as_op a) with None => None | Some op => Some (New k op rand sqn amf16) end
+    | _ => match hex_decode (as_opc a) with None => None | Some opc => Some (NewWithOPc k opc rand sqn amf16) end
     end in
   match mil with None => UeFatal | Some m =>
   match wF2345 E m with
